@@ -286,6 +286,19 @@ var c16Classes = []c16Class{
 		db := strconv.Itoa(4 + rng.Intn(12))
 		return pipe(cn, []string{"SELECT", db}, []string{"SET", "k0", "n"}, []string{"DBSIZE"}, []string{"SELECT", "0"})
 	}},
+	{"multi-db-mix", func(cn *wire.Conn, rng *rand.Rand, i int, _ *c16Env) error {
+		// every database gets its share of plain commands, of commands that take a database exclusively (CLIENT INFO, EXEC)
+		// and of transactions that move into it through a queued SELECT: whatever the exclusive commands leave behind in a
+		// database (ownership marks, command counters) meets the transactions arriving from elsewhere
+		a, b := strconv.Itoa(rng.Intn(4)), strconv.Itoa(rng.Intn(4))
+		switch i % 3 {
+		case 0:
+			return pipe(cn, []string{"SELECT", a}, []string{"INCR", "k0"}, []string{"CLIENT", "INFO"}, []string{"SELECT", "0"})
+		case 1:
+			return pipe(cn, []string{"SELECT", a}, []string{"MULTI"}, []string{"SELECT", b}, []string{"INCR", "k0"}, []string{"RPUSH", "l0", "x"}, []string{"GET", "k0"}, []string{"LPOP", "l0"}, []string{"EXEC"}, []string{"SELECT", "0"})
+		}
+		return pipe(cn, []string{"SELECT", b}, []string{"INCR", "k0"}, []string{"GET", "k0"}, []string{"MULTI"}, []string{"GET", "k0"}, []string{"EXEC"}, []string{"SELECT", "0"})
+	}},
 	{"multi-introspection", func(cn *wire.Conn, rng *rand.Rand, i int, _ *c16Env) error {
 		return pipe(cn, []string{"MULTI"}, []string{"CLIENT", "LIST"}, []string{"CLIENT", "UNBLOCK", "999999"}, []string{"INFO"}, []string{"CLIENT", "KILL", "ID", "999999"}, []string{"DBSIZE"}, []string{"EXEC"})
 	}},
@@ -431,6 +444,7 @@ func c16RunPairs(r *verdict.Run, pairs []c16Pair, opsPerConn int, shard int) []h
 		r.Inconclusive("cannot start race child: " + err.Error())
 		return nil
 	}
+	enableLockMonitor(c)
 	persist := filepath.Join(c.Dir, "persist", "snap")
 	os.MkdirAll(filepath.Dir(persist), 0o755)
 	name, port, err := c.StartEmu(persist) // a persist path turns the periodic saver on
@@ -557,6 +571,7 @@ func c16RunPairs(r *verdict.Run, pairs []c16Pair, opsPerConn int, shard int) []h
 	if !alive {
 		crash = headLines(c.StderrHead(20000), 40)
 	}
+	reportLockMonitor(r, c)
 	c.QuitGracefully()
 	reps := c.RaceReports()
 	if !alive && !strings.Contains(crash, "DATA RACE") {
